@@ -30,6 +30,33 @@ type Query {
 }
 `
 
+// the model's strings are ASCII: LATIN1 names a string of code points 128..255, written with \u00XX escapes
+const latin1Name, latin1Value = "LATIN1", "caf\u00e9 \u00ff\u0080"
+
+func latinBack(v JVal) JVal {
+	if v.K == "str" && v.S == latin1Value {
+		v.S = latin1Name
+	}
+	for i := range v.Items {
+		v.Items[i] = latinBack(v.Items[i])
+	}
+	for i := range v.Ents {
+		v.Ents[i].V = latinBack(v.Ents[i].V)
+	}
+	return v
+}
+
+const argSDL2 = `
+enum E { RED GREEN }
+scalar Any
+input Obj { x: Int y: [Int] z: Obj }
+directive @dir(i: Int = 11, d: Int = 8, l: [Int], o: Obj, a: Any, e: E = GREEN, fl: Float, id: ID, fls: [Float]) on FIELD | QUERY | FRAGMENT_SPREAD | INLINE_FRAGMENT | FRAGMENT_DEFINITION
+type Query {
+  f(i: Int = 11, d: Int = 8, l: [Int], o: Obj, a: Any, e: E = GREEN, fl: Float, id: ID, fls: [Float]): Int
+  g(u1: Int, u2: Int, u3: Int): Int
+}
+`
+
 func argLiteral(v JVal) string {
 	switch v.K {
 	case "null":
@@ -41,6 +68,9 @@ func argLiteral(v JVal) string {
 	case "float", "bigint", "bigfloat", "enum":
 		return v.S
 	case "str":
+		if v.S == latin1Name {
+			return quoteEscaped(latin1Value)
+		}
 		return strconv.Quote(v.S)
 	case "var":
 		return "$" + v.S
@@ -106,7 +136,7 @@ func argMapOf(f func() map[string]interface{}) (m map[string]interface{}, crash 
 }
 
 func checkC15(c *core.Ctx) {
-	c.Rule = "cases are the rows of the decision table enumerated by TLC in ArgMap_MC: variables $p: Int, $q: Int = 3 and $n: Int = null each absent / null / supplied, crossed with one argument of f(i, d = 7, l, o, a: Any, e = RED) written as nothing, a literal (lists and input objects with nested variables, custom-scalar literals of every kind) or a variable; each row is rendered as (schema, document, variables), validated, coerced, and both Field.ArgumentMap and Directive.ArgumentMap are compared entry by entry with the map the specification prints. Non-trivial = rows where the argument is written; distinct by (argument, usage, supplied variables)"
+	c.Rule = "cases are the rows of the decision table enumerated by TLC in ArgMap_MC: variables $p: Int, $q: Int = 3 and $n: Int = null each absent / null / supplied, crossed with one argument of f(i, d = 7, l, o, a: Any, e = RED) written as nothing, a literal (lists and input objects with nested variables, custom-scalar literals of every kind) or a variable; each row is rendered as (schema, document, variables), validated, coerced, and both Field.ArgumentMap and Directive.ArgumentMap are compared entry by entry with the map the specification prints; string literals include code points 128..255 written as \\u00XX escapes; the rows are replayed a second time (other defaults: i = 11, d = 8, e = GREEN) on documents that were parsed once, validated against the first schema and then against the second, where the map must follow the schema validated last. Non-trivial = rows where the argument is written; distinct by (argument, usage, supplied variables)"
 	c.Assumptions = []string{
 		"ArgMap.tla: an absent variable nested in a literal contributes null (the statement says variables inside literals are substituted; it does not ask for omission of the entry)",
 		"literal conversion kinds: Int -> integer, Float -> float, String/Enum -> string, Boolean -> bool, null -> nil",
@@ -137,9 +167,34 @@ func checkC15(c *core.Ctx) {
 			}
 		}
 	}
+	n1, nt1 := argRows(c, "", schema, nil, bigOpen)
+	if c.HasInternal() {
+		return
+	}
+	// the same parsed document validated against one schema and then against another with the same names and
+	// other defaults (a document cache in front of a schema reload): the map follows the schema validated last
+	schema2, err := gqlparser.LoadSchema(&ast.Source{Name: "arg2.graphql", Input: argSDL2})
+	if err != nil {
+		c.Internal("schema 2: %v", err)
+		return
+	}
+	n2, nt2 := argRows(c, `"SCHEMA2"`, schema2, schema, bigOpen)
+	if c.HasInternal() {
+		return
+	}
+	c.Count(int64(n1+n2)*2, nt1+nt2, int64(n1+n2))
+	argMapOps(c, schema)
+	c.Exhaustive = true
+	c.Logf("ArgMap_MC: %d rows replayed into Field.ArgumentMap and Directive.ArgumentMap; %d rows on documents validated against another schema first", n1, n2)
+}
+
+// argRows: the rows of ArgMap_MC (devs: the configuration switches) replayed on `schema`; with `first`, every
+// document is parsed once, validated against `first` and then validated against `schema`
+func argRows(c *core.Ctx, devs string, schema, first *ast.Schema, bigOpen bool) (int, int64) {
 	var cases []argCase
 	var nbad int
-	r := c.RunTLC(tlc.Opts{Module: "ArgMap_MC", CfgFile: "ArgMap_MC.cfg", Workers: 4, LineFn: func(l string) {
+	cfg := "SPECIFICATION Spec\nCONSTANTS\n  Devs = {" + devs + "}\nINVARIANTS Emit Precedence VarLaw\nCHECK_DEADLOCK FALSE\n"
+	r := c.RunTLC(tlc.Opts{Module: "ArgMap_MC", CfgText: cfg, Workers: 4, LineFn: func(l string) {
 		js, ok := tlc.PrintedJSON(l, "CASE")
 		if !ok {
 			return
@@ -153,11 +208,11 @@ func checkC15(c *core.Ctx) {
 	}})
 	tlc.Cleanup(r)
 	if c.HasInternal() {
-		return
+		return 0, 0
 	}
 	if nbad > 0 || int64(len(cases)) != r.Distinct {
 		c.Internal("ArgMap_MC: %d cases (%d unparsable) for %d states", len(cases), nbad, r.Distinct)
-		return
+		return 0, 0
 	}
 	var nontrivial int64
 	docCache := map[string]*ast.QueryDocument{}
@@ -176,7 +231,14 @@ func checkC15(c *core.Ctx) {
 		doc, cached := docCache[q]
 		var errs gqlerror.List
 		if !cached {
-			doc, errs = gqlparser.LoadQuery(schema, q)
+			if first != nil {
+				doc, errs = gqlparser.LoadQuery(first, q)
+				if len(errs) == 0 {
+					errs = validator.Validate(schema, doc)
+				}
+			} else {
+				doc, errs = gqlparser.LoadQuery(schema, q)
+			}
 			if len(errs) == 0 {
 				docCache[q] = doc
 			}
@@ -188,7 +250,7 @@ func checkC15(c *core.Ctx) {
 				continue
 			}
 			c.Internal("row %d: document %s does not validate: %v", i, q, errs)
-			return
+			return 0, 0
 		}
 		vars := map[string]interface{}{}
 		for _, s := range ac.Supplied {
@@ -197,7 +259,7 @@ func checkC15(c *core.Ctx) {
 		coerced, err := validator.VariableValues(schema, doc.Operations[0], vars)
 		if err != nil {
 			c.Internal("row %d: variables do not coerce: %v", i, err)
-			return
+			return 0, 0
 		}
 		// binding: the coerced map is the one the specification computed
 		if len(coerced) != len(ac.CVars) {
@@ -249,7 +311,7 @@ func checkC15(c *core.Ctx) {
 				what := ""
 				if present != e.Present {
 					what = fmt.Sprintf("argument %q present=%v, expected %v", e.Arg, present, e.Present)
-				} else if present && !jvEqual(jvNorm(e.Val), jvNorm(fromGo(got))) {
+				} else if present && !jvEqual(jvNorm(e.Val), jvNorm(latinBack(fromGo(got)))) {
 					what = fmt.Sprintf("argument %q = %s, expected %s", e.Arg, fromGo(got), e.Val)
 				}
 				if what != "" {
@@ -265,10 +327,7 @@ func checkC15(c *core.Ctx) {
 			c.Sample(map[string]any{"document": q, "variables": fmt.Sprint(vars), "expected_map": ac.All})
 		}
 	}
-	c.Count(int64(len(cases))*2, nontrivial, int64(len(cases)))
-	argMapOps(c, schema)
-	c.Exhaustive = true
-	c.Logf("ArgMap_MC: %d rows replayed into Field.ArgumentMap and Directive.ArgumentMap", len(cases))
+	return len(cases), nontrivial
 }
 
 // argMapOps: two operations sharing a fragment (ArgMapOps_MC), both orders of the operations in the
